@@ -333,6 +333,8 @@ class World:
                     return ("p", str(v))
                 if isinstance(v, tuple):
                     return ("t", tuple(key_of(x) for x in v))
+                if isinstance(v, Obj) and v.name == "path" and isinstance(v.attrs.get("p"), str):
+                    return ("path", v.attrs["p"])  # pathlib paths hash and compare by value
                 return ("id", id(v))
             memo = self.__dict__.setdefault("_memo", {})
             k_ = (f.node.name, tuple(key_of(a) for a in args), tuple(sorted((n, key_of(v)) for n, v in (kwargs or {}).items())))
